@@ -37,8 +37,13 @@ func ResponseFromBytes(data []byte) (*Response, error) {
 func FromReader(r io.Reader) (*Response, error) {
 	response := new(Response)
 
-	if err := json.NewDecoder(r).Decode(response); err != nil {
+	dec := json.NewDecoder(r)
+	if err := dec.Decode(response); err != nil {
 		return nil, err
+	}
+	// Only one JSON object is expected: do not trust a response followed by other data.
+	if _, err := dec.Token(); err != io.EOF {
+		return nil, fmt.Errorf("unexpected data after the response object")
 	}
 
 	return response, nil
